@@ -397,10 +397,15 @@ def run_miri(target_key, cases, workdir, tag, shards=4, timeout=3600, no_std=Fal
     target = MIRI_TARGETS[target_key]
 
     def one(k):
-        p = os.path.join(workdir, f"{tag}.miri.{k}.ops")
+        # the op file is embedded with include_bytes!(env!("OPS_FILE")): keep ONE path per target dir so
+        # that cargo's rebuild decision only depends on the file's contents (a changed env value alone
+        # is not tracked under cargo-miri)
+        tdir = os.path.join(BUILD, f"t-miri-{target_key}-{k}")
+        os.makedirs(tdir, exist_ok=True)
+        p = os.path.join(tdir, "ops.txt")
         write_ops([cases[i] for i in idx[k]], p)
-        env = {"OPS_FILE": p, "CARGO_TARGET_DIR": os.path.join(BUILD, f"t-miri-{target_key}-{k}"),
-               "MIRIFLAGS": "-Zmiri-disable-isolation"}
+        shutil.copy(p, os.path.join(workdir, f"{tag}.miri.{k}.ops"))
+        env = {"OPS_FILE": p, "CARGO_TARGET_DIR": tdir, "MIRIFLAGS": "-Zmiri-disable-isolation"}
         if target_key in MIRI_RUSTFLAGS:
             env["RUSTFLAGS"] = MIRI_RUSTFLAGS[target_key]
         cmd = ["cargo", "+nightly", "miri", "run", "--offline", "-q", "--target", target]
